@@ -22,8 +22,12 @@ CMD = {1: "kill-line", 2: "kill-word(M-d)", 3: "kill-word(C-Delete)", 4: "C-w", 
        15: "self-insert", 16: "C-g", 17: "yank(C-x r y)", 18: "kill-region(C-x r k)", 19: "set-cursor",
        21: "cursor-position-report",
        31: "vi-x", 32: "vi-X", 33: "vi-D", 34: "vi-dd", 35: "vi-yy", 36: "vi-p", 37: "vi-P",
-       38: 'vi-"rp', 39: 'vi-"rP', 40: "vi-visual", 51: "vi-s+Esc", 52: "vi-C+Esc", 53: "vi-S+Esc"}
+       38: 'vi-"rp', 39: 'vi-"rP', 40: "vi-visual", 51: "vi-s+Esc", 52: "vi-C+Esc", 53: "vi-S+Esc",
+       60: "vi-operator-motion"}
 VKEY = {0: "d", 1: "y", 2: "x", 3: '"rd', 4: '"ry'}
+# navigation mode [count]["r]<operator><motion>: op 60 = [60, arg, operator, register or -1, motion]
+NAV_OPS = "dyc"
+NAV_MOT = ["l", "h", "$", "0", "^", "e", "b", "B"]
 INSERT_ONLY = {1, 2, 3, 5, 6, 7, 8, 15, 17}
 
 
@@ -45,6 +49,11 @@ def cpr_key():
 def cmd_name(op):
     if op[0] == 40:
         return "vi-visual-" + VKEY.get(op[4], "?")
+    if op[0] == 60:
+        try:
+            return "vi-%s%s%s" % ('"r' if op[3] >= 0 else "", NAV_OPS[op[2]], NAV_MOT[op[4]])
+        except Exception:  # noqa
+            return "vi-operator-motion"
     return CMD.get(op[0], "?")
 
 
@@ -118,6 +127,10 @@ def cmd_keys(op):
         if key in (0, 1, 2):
             return [_kp("dyx"[key])]
         return [_kp('"'), _kp(chr(r)), _kp("d" if key == 3 else "y")]
+    if k == 60:
+        o, r, m = op[2], op[3], op[4]
+        return (([_kp('"'), _kp(chr(r))] if r >= 0 else []) + [_kp(NAV_OPS[o]), _kp(NAV_MOT[m])]
+                + ([ESC] if o == 2 else []))
     raise ValueError(op)
 
 
@@ -557,7 +570,78 @@ class Oracle:
                 return (name + ": text' is not text without the selected span(s)",
                         "vi-cut")
             return None
+        if k == 60:
+            # navigation mode [count]["r] d / y / c + motion: the register (named when a valid name was
+            # given, else the unnamed one) receives exactly the text the motion spans, type CHARACTERS;
+            # d / c remove exactly that text, y changes nothing; nothing else is touched
+            o, r, m = op[2], op[3], op[4]
+            span = nav_span(t0, c0, m, arg)
+            validreg = r >= 0 and chr(r).isascii() and (chr(r).islower() or chr(r).isdigit())
+            if span is None or span[0] >= span[1]:
+                if t1 != t0 or ring1 != ring0 or regs1 != regs0:
+                    return ("%s: the motion spans nothing, but text or registers changed" % name, "vi-nav-empty")
+                return None
+            x, y = span
+            text = t0[x:y]
+            entry = [S(text), 0]
+            if r >= 0:
+                want_regs = dict((kk, v) for kk, v in regs0)
+                if validreg:
+                    want_regs[r] = entry
+                if dict((kk, v) for kk, v in regs1) != want_regs or ring1 != ring0:
+                    return ("%s: register %r does not receive exactly the spanned text %r (registers %r, unnamed changed: %r)" % (
+                        name, chr(r), text, [(chr(kk), unS(v[0]), v[1]) for kk, v in regs1], ring1 != ring0), "vi-nav-register")
+            elif ring1 != _ring_after_push(ring0, entry) or regs1 != regs0:
+                return ("%s: the unnamed register does not receive exactly the spanned text %r (head %r)" % (
+                    name, text, unS(ring1[0][0]) if ring1 else None), "vi-nav-register")
+            if o == 1:
+                return None if t1 == t0 else (name + " changed the text", "vi-yank-pure")
+            if t1 != t0[:x] + t0[y:]:
+                return ("%s: text' %r is not text without the spanned text %r" % (name, t1, text), "vi-nav-cut")
+            return None
         return None
+
+
+_WORD_RE = None
+
+
+def nav_span(t, c, m, n):
+    """[x, y): the text a navigation-mode motion spans from cursor c (count n); None = no motion.
+    l h $ 0 ^ stay on the line; e = through the end of the n-th word after the cursor character;
+    b / B = back to the n-th word / WORD start before the cursor.  An exclusive span that ends at
+    column 0 ends before that line's separator (Vi's rule for exclusive motions)."""
+    import re
+    global _WORD_RE
+    if _WORD_RE is None:
+        _WORD_RE = (re.compile(r"([a-zA-Z0-9_]+|[^a-zA-Z0-9_\s]+)"), re.compile(r"([^\s]+)"))
+    a, e = _line_bounds(t, c)
+    if m == 0:
+        x, y = c, min(e, c + n)
+    elif m == 1:
+        x, y = max(a, c - n), c
+    elif m == 2:
+        x, y = c, e
+    elif m == 3:
+        x, y = a, c
+    elif m == 4:
+        line = t[a:e]
+        p = a + len(line) - len(line.lstrip())
+        x, y = min(p, c), max(p, c)
+    elif m == 5:
+        ends = [mm.end() for mm in _WORD_RE[0].finditer(t) if mm.end() > c + 1]
+        if len(ends) < n:
+            return None
+        return c, ends[n - 1]
+    else:
+        starts = [mm.start() for mm in _WORD_RE[1 if m == 7 else 0].finditer(t) if mm.start() < c]
+        if len(starts) < n or n < 1:
+            return None
+        x, y = starts[-n], c
+    if x == y:
+        return None
+    if y > 0 and t[y - 1] == "\n":
+        y -= 1
+    return x, y
 
 
 def paste_spec(t, c, text, ty, before, n):
@@ -596,9 +680,10 @@ def oracle_case(case, trace):
 
 
 # --------------------------------------------------------------------------
-# Vi navigation mode: "<register><operator><motion>.  Not modelled (text objects are C08's
-# subject); checked differentially on the implementation itself: the named register must
-# receive what the same operator + motion without a register prefix puts in the unnamed one.
+# Vi navigation mode: "<register><operator><motion> for motions OUTSIDE the model (command 60
+# models l h $ 0 ^ e b B; the other text objects are C08's subject): checked differentially on
+# the implementation itself: the named register must receive what the same operator + motion
+# without a register prefix puts in the unnamed one.
 
 NAV_MOTIONS = ["w", "e", "$", "iw", "fz", "b", "l"]
 
@@ -794,8 +879,11 @@ def rand_vi_ops(rng, tlen, n):
             ops.append([k, rand_paste_arg(rng, 1)])
         elif r < 0.65:
             ops.append([rng.choice([38, 39]), rand_paste_arg(rng, 1), rng.choice(regs)])
-        elif r < 0.9:
+        elif r < 0.8:
             ops.append([40, [], rng.randint(0, tlen), rng.choice([0, 0, 1, 2]), rng.choice([0, 1, 2, 3, 4]), rng.choice(regs)])
+        elif r < 0.93:
+            ops.append([60, rng.choice([[], [], [2], [3], [tlen + 1]]), rng.choice([0, 0, 1, 1, 2]),
+                        rng.choice([-1, -1] + regs), rng.randrange(len(NAV_MOT))])
         else:
             ops.append([19, [], rng.randint(0, tlen)])
     return ops
@@ -868,6 +956,20 @@ def gen_cases(chk):
     for r in list(range(97, 123)) + list(range(48, 58)) + [65, 45, 34, 0x754c]:
         for key in (3, 4):
             add("vi_all_registers", [1, S("ab cd\nef"), 1, vring, [[40, [], 4, 0, key, r], [38, [], r], [39, [2], r], [38, [], 98]]])
+    # E2. navigation mode [count]["r] d / y / c + motion on every small document, then a paste of that register
+    pN = 0.25 if thorough else 0.03
+    for t in texts_upto(ALPHA_E, 4):
+        for cur in range(len(t) + 1):
+            for o in (0, 1, 2):
+                for r in (-1, 97):
+                    for m in range(len(NAV_MOT)):
+                        for a in ([], [2]):
+                            pk = [38, [], 97] if r >= 0 else [37, []]
+                            add("vi_operator_motion_exhaustive", [1, S(t), cur, vring, [[60, a, o, r, m], pk]], pN)
+    for r in (65, 45, 0x754c, 122, 48):
+        for o in (0, 1, 2):
+            for m in (0, 5, 6):
+                add("vi_operator_motion_registers", [1, S("ab cd\nef"), 4, vring, [[60, [], o, r, m], [38, [], r], [36, []]]])
     # F. paste of every data type / mode / count on small documents (data preloaded in the ring)
     datas = [["xy", 0], ["", 0], ["x\ny", 0], ["xy", 1], ["x\ny", 1], ["", 1], ["xy", 2], ["x\nyy", 2], ["", 2], ["x\n\ny", 2]]
     pF = 1.0 if thorough else 0.4
@@ -987,14 +1089,16 @@ def main(tier):
         "command x 6 arguments x all documents of length <= %d over %r x all cursors followed by yank and 3 yank-pops; "
         "repeated word kills; every (mark, point) region; Vi x/X/D/dd/yy x counts and every visual selection "
         "(both ends, 3 types, d/y/x/\"rd/\"ry) on all documents <= %d over %r followed by pastes; every paste type x mode x count; "
-        "all 36 register names + 4 invalid ones; random sessions in both modes (rings of 58-60 entries included). "
+        "all 36 register names + 4 invalid ones; navigation-mode [count][\"r]d/y/c + motion (l h $ 0 ^ e b B) on all documents "
+        "<= 4 over the emacs alphabet followed by a paste of that register (sampled); random sessions in both modes (rings of 58-60 entries included). "
         "non-trivial = some command succeeded and changed text, ring or registers; quick tier samples the exhaustive families "
         "(10-50%%)." % (5 if chk.tier == "thorough" else 4, ALPHA_E, 5 if chk.tier == "thorough" else 4, ALPHA_V))
     chk.assumptions += [
         "key dispatch (which binding a key reaches, filters) is outside the model: commands that are not bound in the current "
         "state (insert-mode commands while a selection is active) are answered 'unmodelled' by both sides and never asserted on",
-        "Vi operator + motion in navigation mode (dw, \"ayw, ...) is not modelled; the named-register operators are covered "
-        "in visual mode only (see design.d/C09.md, finding C09-F2 for what happens in navigation mode)",
+        "Vi operator + motion in navigation mode is modelled for d / y / c x optional register x count x the motions "
+        "l h $ 0 ^ e b B (command 60); other motions and text objects (w, iw, f<c>, j, k, ...) are only covered by the "
+        "oracle-only differential register probe",
         "re's \\s class and [a-zA-Z0-9_] are modelled by Gen/Whitespace.re_space_table and ASCII ranges; CPython slicing, "
         "split, join, ljust, rfind are re-implemented in Coq and tied by this correspondence only",
         "clipboard is the default InMemoryClipboard(max_size=60); system clipboards are outside"]
